@@ -425,6 +425,29 @@ example : (multipartForm (fun n => if n = "a" then some 16 else none) 100 50
 example : (multipartForm (fun n => if n = "a" then some 16 else none) 100 50
     [⟨"a", .memory, [10]⟩, ⟨"a", .memory, [3, 4]⟩]).1 = .overflow 1 := by decide
 
+/-- **C12_mp_form_spec**: the complete result of `MultipartForm` extraction, all three cases
+(`FormFits limitOf []` is the three-sum condition of `C12_mp_form_iff`): success means no denied
+duplicate and everything fits; `Overflow` is reported at the *first* field whose bytes make a sum
+exceed its budget, everything before it having fitted; a denied duplicate is reported only if
+everything before it fitted. -/
+theorem C12_mp_form_spec (limitOf : String → Option Nat) (total memory : Nat) (fs : List Field) :
+    match (multipartForm limitOf total memory fs).1 with
+    | .ok => (∀ f ∈ fs, f.kind ≠ .deny) ∧ FormFits limitOf [] total memory fs
+    | .overflow j => ∃ pre f suf, fs = pre ++ f :: suf ∧ j = pre.length ∧
+        (∀ g ∈ pre, g.kind ≠ .deny) ∧ f.kind ≠ .deny ∧
+        FormFits limitOf [] total memory pre ∧ ¬ FormFits limitOf [] total memory (pre ++ [f])
+    | .duplicate j => ∃ pre f suf, fs = pre ++ f :: suf ∧ j = pre.length ∧
+        (∀ g ∈ pre, g.kind ≠ .deny) ∧ f.kind = .deny ∧ FormFits limitOf [] total memory pre := by
+  have := formLoop_spec limitOf fs { total := total, memory := memory, field := none } [] 0
+  unfold multipartForm
+  revert this
+  cases (formLoop limitOf { total := total, memory := memory, field := none } [] 0 fs).1 with
+  | ok => exact fun h => h
+  | overflow j => intro h; simpa using h
+  | duplicate j => intro h; simpa using h
+
+example : (multipartForm (fun _ => none) 10 10 [⟨"b", .memory, [4]⟩, ⟨"b", .deny, [1]⟩]).1 = .duplicate 1 := by decide
+
 /-- the part of a field the budgets can see: name, how it is handled, total size -/
 def fieldSig (f : Field) : String × FieldKind × Nat := (f.name, f.kind, fieldSum f)
 
@@ -472,6 +495,20 @@ theorem C12_field_bytes_spec (limit : Nat) (items : List Item) :
       else .limitExceeded := by
   have := fieldBytesFrom_spec limit items [] (by simp)
   simpa [fieldBytes] using this
+
+/-- **C12_field_bytes_within**: data is returned only if it is within the limit, complete and
+exactly what the field delivered. -/
+theorem C12_field_bytes_within (limit : Nat) (items : List Item) (b : Bytes)
+    (h : fieldBytes limit items = .ok b) :
+    b.length ≤ limit ∧ b = bytesBeforeErr items ∧ hasErr items = false := by
+  rw [C12_field_bytes_spec] at h
+  cases he : hasErr items
+  · rw [he] at h
+    simp only [Bool.false_eq_true, if_false] at h
+    by_cases hl : (bytesBeforeErr items).length ≤ limit
+    · rw [if_pos hl] at h; injection h with h; subst h; exact ⟨hl, rfl, rfl⟩
+    · rw [if_neg hl] at h; cases h
+  · rw [he] at h; simp at h
 
 /-- **C12_field_bytes_chunking_independent** -/
 theorem C12_field_bytes_chunking_independent (limit : Nat) (items items' : List Item)
